@@ -55,9 +55,11 @@ def run_op(p, e, op, stash=None, meta=True, shared=None):
         if kind == 'parse_on_error':
             seen = []
 
+            limit = op[3] if len(op) > 3 else 6
+
             def handler(ex):
                 seen.append(type(ex).__name__)
-                return len(seen) < 6
+                return len(seen) < limit           # limit 1: the handler declines at once and the error is re-raised
             r = p.parse(W.as_input(e, op[1]), start=op[2], on_error=handler)
             return {'ok': canon(r, meta), 'handled': seen}
         if kind == 'lex':
